@@ -131,7 +131,7 @@ fn gen_doc(ch: &mut Ch, out: &mut CaseOut) -> DigDoc {
                 for _ in 0..30 {
                     lch_data.push(ch.raw());
                 }
-                let opts = LayoutOpts { crlf: false, ..LayoutOpts::ALL };
+                let opts = LayoutOpts::ALL;
                 render(&program_lines(&b.prog), &mut Ch::new(&lch_data), opts).text
             }
             1 => {
